@@ -71,4 +71,31 @@ CHECKS['C19'] = {
           'incl. label); Update codecs, value interning and key-string injectivity trusted',
   'technique': 'Coq proof (refinement to an abstract map, induction over update lists) + model/implementation correspondence via vm_compute',
 }
+CHECKS['C07'] = {
+  'text': 'Coq round-trip theorems for all in-range values (prefix lengths fully symbolic) for IPv6 unicast (reach/unreach, next hops with and without '
+          'link-local), route distinguishers, label stacks, VPNv4/VPNv6, IPv4/IPv6 labeled unicast, each under its exact guard with a kernel-checked '
+          'refuted witness per guard; flowspec operator lists proved, flowspec framing and EVPN types 1-4 covered by the round-trip oracle on the '
+          'implementation. Models tied by correspondence (4.6k cases quick) with zero mismatches.',
+  'note': 'guards = known findings (IPv6 values < 2^32 render as IPv4, label 0 without bottom-of-stack, deeper label stacks in VPN, trailing double ::/0, '
+          'labeled-unicast unreach paths, flowspec /0 and tcp-flags) listed in known_findings.json; EVPN has no Coq model; netaddr text<->integer conversions trusted',
+  'technique': 'Coq proof (round-trip theorems per family, refutation witnesses) + model/implementation correspondence via vm_compute + round-trip oracle',
+}
+CHECKS['C08'] = {
+  'text': 'An independent structural walker written in Coq from the RFCs (spec/Walker.v, shares no code with yabgp) with proved sanity lemmas (header, section '
+          'sums, prefix octets, attribute framing, flag table) and validity theorems for NOTIFICATION, KEEPALIVE, ROUTE-REFRESH, IPv4 prefix lists and the '
+          'single standard attributes against the Coq models of the constructors; every other constructor (OPEN, whole UPDATEs, MP families, tunnel encaps, '
+          'SR-TE, PMSI, flowspec v4/v6, EVPN) is decided by evaluating the Coq walker on the implementation output over exhaustive/boundary input spaces.',
+  'note': 'theorems cover the modelled constructors only; the rest is the walker run as an oracle (test, not proof); 5 known findings (C08-oversize, '
+          'C08-flowspec-and-dropped, C08-flowspec6-offset, C08-label0-no-bos, C08-srte-ipv6-endpoint)',
+  'technique': 'Coq-specified structural walker (proved sanity + validity theorems for modelled constructors) evaluated by vm_compute on real constructor output',
+}
+CHECKS['C11'] = {
+  'text': 'Every while loop (41) and recursive call site (3) of yabgp/message/** - list regenerated from the source by harness/inventory.py and proved equal to '
+          'the modelled list - is proved in Coq to make progress, hence to end within length(d) iterations for all inputs and all element decoders; nested TLV '
+          'and recursive SRv6 work bounded by length(d) in total; Update.parse returns a result for every body whose length fields are in range. The code as '
+          'found is refuted (C11_srcap_refuted, C11_labeled_nlri_refuted) and repaired (fix commits acd574e, f65d182).',
+  'note': 'modelled, not proved: the hand transcription of each loop body (tied by fingerprint lemma + iteration-count correspondence), finiteness of for-iterables, '
+          'totality of straight-line decoders; CPU budget measured on the implementation under a per-call alarm',
+  'technique': 'Coq proof (progress per loop, induction) + source inventory translator (fail-closed) + exhaustive short-input / mutation runs under CPU alarm',
+}
 NOT_CLAIMED = {}
